@@ -122,6 +122,9 @@ func fixed() []rtgen.CaseT {
 		mk([]rtgen.RegT{reg(G, "/t/:s", rtgen.ConsT{Name: "s", Kind: "enum", Arg: "open|closed|void"})}, G, "/t/opened", false),
 		mk([]rtgen.RegT{reg(G, "/t/:s", rtgen.ConsT{Name: "s", Kind: "enum", Arg: "open|closed|void"})}, "PUT", "/t/unclosed", false),
 		mk([]rtgen.RegT{reg(G, "/t/:s", rtgen.ConsT{Name: "s", Kind: "enum", Arg: "open|closed|void"})}, G, "/t/closed", false),
+		mk([]rtgen.RegT{reg(G, "/f/*")}, G, "/f/a/../b.txt", false), mk([]rtgen.RegT{reg(G, "/f/*")}, G, "/f/v1..2/", false),
+		mk([]rtgen.RegT{reg(G, "/w/:id", rtgen.ConsT{Name: "id", Kind: "where", Arg: `\d+`}, rtgen.ConsT{Name: "id", Kind: "where", Arg: `[a-z0-9]+`})}, G, "/w/abc", false),
+		mk([]rtgen.RegT{reg(G, "/w/:id", rtgen.ConsT{Name: "id", Kind: "where", Arg: `\d+`}, rtgen.ConsT{Name: "id", Kind: "where", Arg: `[a-z0-9]+`})}, "PUT", "/w/abc", false),
 		mk(k01e, G, "/f/abc/x", false), mk(k01e, G, "/f/12/x/y", false), mk(k01e, "POST", "/g/a/b", false), mk(k01e, "POST", "/g/a/7", false), mk(k01e, "PUT", "/g/a/7", false),
 		mk([]rtgen.RegT{reg(G, "/s/*"), reg(G, "/s/:x")}, G, "/s/1", false), mk([]rtgen.RegT{reg(G, "/s/*")}, G, "/s", false),
 	}
